@@ -200,6 +200,12 @@ func floatsRedKernels() []*redKernel[float64] {
 			call: func(a *A) (float64, float64) { return floats.Norm(a.x.unit(), math.Inf(1)), 0 }, check: checkInfNorm(false)},
 		{name: "floats.Norm(3)", nsrc: 1, maxExp: 90,
 			call: func(a *A) (float64, float64) { return floats.Norm(a.x.unit(), 3), 0 }, check: checkPNorm(3, false)},
+		{name: "floats.Norm(1.5)", nsrc: 1, maxExp: 150,
+			call: func(a *A) (float64, float64) { return floats.Norm(a.x.unit(), 1.5), 0 }, check: checkPNorm(1.5, false)},
+		{name: "floats.Norm(4)", nsrc: 1, maxExp: 70,
+			call: func(a *A) (float64, float64) { return floats.Norm(a.x.unit(), 4), 0 }, check: checkPNorm(4, false)},
+		{name: "floats.Distance(1.5)", nsrc: 2, maxExp: 150,
+			call: func(a *A) (float64, float64) { return floats.Distance(a.x.unit(), a.y.unit(), 1.5), 0 }, check: checkPNorm(1.5, true)},
 		{name: "floats.Distance(1)", nsrc: 2, maxExp: 300, intExact: true,
 			call: func(a *A) (float64, float64) { return floats.Distance(a.x.unit(), a.y.unit(), 1), 0 }, check: checkL1Dist},
 		{name: "floats.Distance(2)", nsrc: 2, maxExp: 300, l2: true,
